@@ -237,8 +237,11 @@ func tileMain(args []string) error {
 			case "rekor":
 				h, feed, suffix = sl.RekorHandler("1234"), rekor.FeedLog, "/?treeID=1234"
 			}
-			ts := httptest.NewServer(h)
+			// what sits between the feeder and the log differs per worker: nothing, a compressing front end, a redirect to a canonical location
+			front := []string{"plain", "gzip", "redirect"}[wk%3]
+			ts := httptest.NewServer(stublog.FrontEnd(h, front))
 			defer ts.Close()
+			tag += "/" + front
 			lc, err := config.NewLog(l.Origin, l.Key.VKey(), ts.URL+suffix)
 			if err != nil {
 				firstErr = err
